@@ -112,6 +112,7 @@ def expectUpdate (names : List Name) (b : Obs) (j : IId) : List (Name Ã— Obj) â†
     match idxOf names n with
     | none => none      -- a name outside the observed universe: no expectation
     | some k =>
+      if (b.insts[j]?).isNone then none else
       match b.govFlags j k with
       | none => some "ValueError"
       | some (c, r) =>
